@@ -205,6 +205,7 @@ type CaseRec struct {
 	admitted map[string]bool
 	// why the last sync round rejected a neighbor answer: "inc|target" / "full|target" -> reason
 	Rejections map[string]string
+	LateAnswers int // answers of well-behaved peers that arrived after the node's per-neighbor timeout
 }
 
 func NewCaseRec(id string, n *Node, universe []string) *CaseRec {
@@ -434,7 +435,7 @@ func (c *CaseRec) Update(now int64, peers []*Peer) string {
 	c.stamps[now] = true
 	hostLen := len(n.AllBlocks())
 	var senders []application.Sender
-	var nbs []string
+	var nbs, incs, fulls []string
 	for _, p := range peers {
 		p := p
 		senders = append(senders, &FakeSender{target: p.Target, getBlocks: p.Serve})
@@ -442,8 +443,8 @@ func (c *CaseRec) Update(now int64, peers []*Peer) string {
 		if hostLen > 0 {
 			inc = respSx(c, p, uint64(hostLen-1))
 		}
-		full := respSx(c, p, 0)
-		nbs = append(nbs, sx(atom(p.Target), inc, full))
+		incs = append(incs, inc)
+		fulls = append(fulls, respSx(c, p, 0))
 	}
 	n.Senders.Set(senders)
 	n.Log.Take()
@@ -503,6 +504,20 @@ func (c *CaseRec) Update(now int64, peers []*Peer) string {
 	}
 	sort.Strings(accl)
 	res = res + ":" + strings.Join(accl, ",")
+	// what a fetch returned is the model's input. An answer that reached the node only after its
+	// per-neighbor timeout (a loaded machine; the timeout of the faults suite is short) was, for the
+	// node, a failed fetch: the model is told what happened, and the event is counted.
+	for k, p := range peers {
+		if !p.Slow && strings.Contains(c.Rejections["inc|"+p.Target], "response timeout") && !strings.HasPrefix(incs[k], "(fail") {
+			incs[k] = "(fail timeout)"
+			c.LateAnswers++
+		}
+		if !p.Slow && strings.Contains(c.Rejections["full|"+p.Target], "response timeout") && !strings.HasPrefix(fulls[k], "(fail") {
+			fulls[k] = "(fail timeout)"
+			c.LateAnswers++
+		}
+		nbs = append(nbs, sx(atom(p.Target), incs[k], fulls[k]))
+	}
 	c.record("update", "update "+i64(now)+" "+plist(nbs)+" "+atom(res), res)
 	return res
 }
